@@ -141,11 +141,26 @@ func anteStream(w *World, seed uint64, n int, ops, obs io.Writer) {
 		h := heights[g.R.N(len(heights))]
 		nm := 1 + g.R.N(3)
 		var msgs []Msg
-		style := g.R.W(40, 40, 20)
+		style := g.R.W(36, 36, 18, 10)
 		for j := 0; j < nm; j++ {
 			switch style {
 			case 0: // anything anywhere
 				msgs = append(msgs, g.anteTree(1+g.R.N(6), false))
+			case 3: // one leaf under a long chain of wrappers ("at every nesting depth"), harmless siblings here and there
+				m := g.anteLeaf()
+				depth := 7 + g.R.N(30)
+				for d := 0; d < depth; d++ {
+					kind := []string{"EXEC", "GROUPPROP", "GOVPROP"}[g.R.W(50, 25, 25)]
+					sub := []Msg{m}
+					if g.R.P(20) {
+						sub = append([]Msg{{Kind: "OTHER"}}, sub...)
+					}
+					if g.R.P(10) {
+						sub = append(sub, Msg{Kind: "OTHER"})
+					}
+					m = Msg{Kind: kind, Sub: sub}
+				}
+				msgs = append(msgs, m)
 			default: // harmless tree, one planted offender (style 1) or none (style 2)
 				msgs = append(msgs, g.anteTree(1+g.R.N(6), true))
 			}
@@ -248,10 +263,7 @@ func validateStream(w *World, seed uint64, n int, ops, obs io.Writer) {
 		case 3: // staking Params.Validate on the six fields
 			a := g.msgParams(Snap{MaxVals: 5, NBonded: 4}).Args
 			fmt.Fprintf(ops, "VP %s\n", strings.Join(a, " "))
-			denom := BondDenom
-			if a[4] == "2" {
-				denom = "1 bad denom!"
-			}
+			denom := denomOf(a[4])
 			p := stakingtypes.Params{UnbondingTime: time.Duration(atoi64(a[0])), MaxValidators: uint32(atoi64(a[1])), MaxEntries: uint32(atoi64(a[2])),
 				HistoricalEntries: uint32(atoi64(a[3])), BondDenom: denom, MinCommissionRate: decArg(a[5])}
 			res := "ok"
@@ -492,6 +504,54 @@ func convertStream(w *World, seed uint64, n int, out io.Writer) int {
 			}
 		}
 	}
+	// the same round trip after the chain's rules moved under the pending applications: the admin raises the minimum
+	// commission above the rate of the queued applications (20 %), the chain is exported and imported (x/staking's genesis
+	// carries the raised minimum): the pending list must survive unchanged
+	func() {
+		defer func() {
+			if e := recover(); e != nil {
+				bad++
+				fmt.Fprintf(out, "CONVBAD genesis import after a parameter change panicked: %v\n", e)
+			}
+		}()
+		o := node.ExecBlock(Block{DtNs: 1_000_000_000, Txs: []Tx{{Signer: -1, Msgs: []Msg{{Kind: "PARAMS", Args: []string{"8000000000", "100", "7", "10000", "0", "300000000000000000"}}}}}}, nil)
+		if len(o.Txs) != 1 || o.Txs[0].Code != 0 {
+			bad++
+			fmt.Fprintf(out, "CONVBAD raising the minimum commission failed\n")
+			return
+		}
+		exported := node.App.POAKeeper.ExportGenesis(node.Ctx())
+		bz, err := cdc.MarshalJSON(exported)
+		if err != nil {
+			bad++
+			fmt.Fprintf(out, "CONVBAD genesis marshal (2) %v\n", err)
+			return
+		}
+		gen3 := gen
+		gen3.MinCommE18 = 300_000_000_000_000_000
+		gen3.PoaGenesis = bz
+		node3, _, err := NewNode(w, gen3)
+		if err != nil {
+			bad++
+			fmt.Fprintf(out, "CONVBAD genesis import after a parameter change: %v\n", err)
+			return
+		}
+		defer node3.Close()
+		node3.ExecBlock(Block{DtNs: 1_000_000_000}, nil)
+		a, _ := node.App.POAKeeper.GetPendingValidators(node.Ctx())
+		b, _ := node3.App.POAKeeper.GetPendingValidators(node3.Ctx())
+		if len(a.Validators) == 0 || len(a.Validators) != len(b.Validators) {
+			bad++
+			fmt.Fprintf(out, "CONVBAD genesis import after a parameter change: %d pending before, %d after\n", len(a.Validators), len(b.Validators))
+			return
+		}
+		for i := range a.Validators {
+			if a.Validators[i].OperatorAddress != b.Validators[i].OperatorAddress || !a.Validators[i].Commission.CommissionRates.Rate.Equal(b.Validators[i].Commission.CommissionRates.Rate) {
+				bad++
+				fmt.Fprintf(out, "CONVBAD genesis import after a parameter change altered entry %d\n", i)
+			}
+		}
+	}()
 	fmt.Fprintf(out, "CONV records=%d bad=%d\n", n, bad)
 	return bad
 }
